@@ -228,7 +228,13 @@ func Run(c *evid.Case, env *qsim.Env, cfg qsim.Config, after func(cl *qsim.Clust
 	cl.StartAll()
 	track()
 	if directed {
-		res.Directed = LockThenBreak(cl, track)
+		if c.Rng.Intn(4) == 0 {
+			if SplitPrepare(cl, track) {
+				res.Directed = "split-prepare"
+			}
+		} else {
+			res.Directed = LockThenBreak(cl, track)
+		}
 	}
 	for len(res.Agreement) == 0 && cl.Step() {
 		track()
